@@ -57,7 +57,11 @@ def _replay_worker(args):
         if a == "Recv":
             drv.recv(lines[i - 1])
         elif a in ("PumpL", "PumpE"):
-            drv.pump()
+            # the implementation may resolve a freedom point (e.g. which id it hands out) differently from the TLC
+            # behaviour, after which the two queues differ in length: the behaviour only supplies the environment's
+            # choices, the recorded trace is judged on its own
+            if drv.gw.tasks.queue:
+                drv.pump()
         elif a == "Call":
             c = calls[i - 1]
             if c["a"] == "SetChild":
